@@ -26,6 +26,18 @@ def pin_label(p):
                                 ",nonascii" if any(c > 127 for c in b) else "")
 
 
+def labels(pins):
+    """PIN labels of a scenario, runs of the same label folded (`label x n`)."""
+    out = []
+    for p in pins:
+        lab = pin_label(p)
+        if out and out[-1][0] == lab:
+            out[-1][1] += 1
+        else:
+            out.append([lab, 1])
+    return [lab if n == 1 else "%s x%s" % (lab, n if n in admin_ops.COUNTS else "n") for lab, n in out]
+
+
 RELEVANT = {
     "onboard": ("plat", "src", "any_pin", "outfile", "pre", "mode", "onb", "echo", "answers", "wipe",
                 "enter", "post"),
@@ -40,8 +52,16 @@ RELEVANT = {
 def signature(clause, d):
     """Stable abstract description: failing clause + the dimensions the command can depend on."""
     dims = " ".join("%s=%s" % (k, int(d[k]) if isinstance(d.get(k), bool) else d.get(k)) for k in RELEVANT[d["op"]])
-    return "%s|op=%s %s pins=[%s]%s%s" % (clause, d["op"], dims, ";".join(pin_label(p) for p in d["pins"]),
+    return "%s|op=%s %s pins=[%s]%s%s" % (clause, d["op"], dims, ";".join(labels(d["pins"])),
                                          answer_shapes(d), " via=cli" if d.get("cli") else "")
+
+
+def brief(d, keys):
+    """The named fields of a scenario for messages; a long run of PIN entries is abridged."""
+    out = {k: d.get(k) for k in keys}
+    if "pins" in out and len(out["pins"]) > 4:
+        out["pins"] = out["pins"][:2] + ["... %d entries in all, last:" % len(d["pins"]), d["pins"][-1]]
+    return out
 
 
 def answer_shapes(d):
@@ -62,6 +82,8 @@ def answer_shapes(d):
         out.append("unlockbyte:0x%02x" % d["unlock_byte"])
     if "newpin" in rel and d.get("newpin") == "f":
         out.append("newpin:%s" % d.get("newpin_how"))
+    if d.get("answers") in ("oy", "on", "oeof") and d.get("n_other", 1) != 1:
+        out.append("others:x%d" % d["n_other"])
     if d.get("link"):
         out.append("link:%s@%s#%d" % (d["link"]["kind"], d["link"]["cls"], d["link"]["nth"]))
     return (" answers=[%s]" % ",".join(out)) if out else ""
@@ -70,7 +92,7 @@ def answer_shapes(d):
 def relevant(d):
     """Abstract class of a scenario for coverage counting (dimensions the command can look at)."""
     return (d["op"], d["plat"], d["src"], d["any_pin"], d["no_unlock"], d["outfile"],
-            tuple(pin_label(p) for p in d["pins"]), d["mode"], d["onb"], d["echo"], d["answers"])
+            tuple(labels(d["pins"])), d["mode"], d["onb"], d["echo"], d["answers"])
 
 
 def random_scenario(rng):
@@ -285,6 +307,38 @@ def run(ctx):
     res.coverage["model_drift"] = drift["n"]
     if drift["samples"]:
         res.coverage["model_drift_samples"] = core._jsonable(drift["samples"])
+    # 3c''. scale: how many other answers / rejected entries a prompt gets before the decisive one
+    #       (1 .. 2500; the harness hands out up to PROMPT_CAP = 5000), everything else favourable:
+    #       "proceed?" answered other x n then yes / no / end of input; a PIN prompt given n rejected
+    #       entries then a compliant one / end of input
+    n_scale, seen_groups = 0, set()
+    for bi, b in enumerate(behaviours):
+        cfg, e = b["cfg"], b["env"]
+        if e["link"] != "?" or not admin_ops.clean_prefix_but(b, ("answers", "retry", "pinc")):
+            continue
+        if e["answers"] in ("oy", "on", "oeof") and (e["retry"] in ("?", "valid")) and e["pinc"] in ("?", "ok"):
+            group = ("answers", cfg["plat"], cfg["src"], cfg["any_pin"], e["answers"])
+            if (ctx.quick and group in seen_groups) or (group + (e["wipe"], e["enter"], e["post"])) in seen_groups:
+                continue
+            seen_groups.add(group)
+            seen_groups.add(group + (e["wipe"], e["enter"], e["post"]))
+            for n in admin_ops.COUNTS:
+                sc = admin_ops.scenario_from_model(cfg, e, ctx.rng, favourable=True, n_other=n)
+                sc.desc["cli"] = (n_scale % 3 == 0)
+                record(sc, "n%d_%d" % (bi, n), "scale: %d other answers" % n, b)
+                n_scale += 1
+        elif cfg["src"] == "prompt" and e["retry"] in ("valid", "eof") and e["answers"] in ("?", "yes"):
+            group = ("pins", cfg["op"], cfg["plat"], cfg["any_pin"], e["retry"])
+            if group in seen_groups or (ctx.quick and cfg["any_pin"]):
+                continue
+            seen_groups.add(group)
+            for n in admin_ops.COUNTS:
+                sc = admin_ops.scenario_from_model(cfg, e, ctx.rng, favourable=True, n_rejected=n)
+                sc.desc["cli"] = (n_scale % 3 == 0)
+                record(sc, "n%d_%d" % (bi, n), "scale: %d rejected entries" % n, b)
+                n_scale += 1
+    res.coverage["scale_runs"] = {"counts": list(admin_ops.COUNTS), "runs": n_scale,
+                                  "prompt_cap": admin_ops.PROMPT_CAP}
     # 3d. code-point sweep: every character of U+0000..U+07FF (thorough: plus fullwidth / Indic / CJK /
     #     mathematical samples) inside an otherwise compliant PIN whose encoding is exactly 8 bytes,
     #     any-PIN not allowed, everything else favourable, PIN given as an option and typed at the prompt
@@ -365,8 +419,8 @@ def run(ctx):
             res.violation(signature(v["clause"], d),
                           "%s on %s violates %s at event %s: scenario %s, outcome %s (%s)" % (
                               d["op"], d["plat"], v["clause"], v.get("at"),
-                              json.dumps({k: d.get(k) for k in ("src", "any_pin", "no_unlock", "pins", "mode",
-                                                                "onb", "echo", "answers")}, sort_keys=True),
+                              json.dumps(brief(d, ("src", "any_pin", "no_unlock", "pins", "mode", "onb", "echo",
+                                                   "answers", "n_other")), sort_keys=True),
                               t["outcome"], dg["exc"]),
                           {"scenario": d, "prev_seed": t["prev_seed"], "classes": dg["classes"],
                            "outcome": t["outcome"], "exception": dg["exc"], "verdict": v})
@@ -386,14 +440,14 @@ def run(ctx):
         if t["outcome"] == "ok" and shown < 4 and dg["desc"]["op"] == ("onboard", "unlock", "changepin",
                                                                       "pubkeys")[shown]:
             shown += 1
-            res.sample({"scenario": {k: dg["desc"][k] for k in ("op", "plat", "src", "any_pin", "no_unlock",
-                                                                 "pins", "mode", "onb", "echo", "answers")},
+            res.sample({"scenario": brief(dg["desc"], ("op", "plat", "src", "any_pin", "no_unlock", "pins",
+                                                       "mode", "onb", "echo", "answers")),
                         "event_classes": compact(dg["classes"]), "outcome": t["outcome"],
                         "files": t["files"] if t["files"]["txt"] else None, "source": dg["src"]})
     for t in traces[-2:]:
         dg = diags[t["id"]]
-        res.sample({"scenario": {k: dg["desc"][k] for k in ("op", "plat", "src", "any_pin", "no_unlock",
-                                                             "pins", "mode", "onb", "echo", "answers")},
+        res.sample({"scenario": brief(dg["desc"], ("op", "plat", "src", "any_pin", "no_unlock", "pins", "mode",
+                                                   "onb", "echo", "answers")),
                     "event_classes": compact(dg["classes"]), "outcome": t["outcome"],
                     "exception": dg["exc"], "source": dg["src"]})
     return res
